@@ -150,6 +150,10 @@ pub enum BKind {
     Str,
     /// the unwrap_static variants over plain data
     StaticSwh,
+    /// header with a destructor, elements without drop glue (u32), finished with copy_slice
+    SwhTokPod,
+    /// header without drop glue (u64), elements with destructors
+    SwhPodTok,
 }
 
 #[derive(Serialize, Deserialize, Clone, Copy, Debug, PartialEq, Eq)]
